@@ -165,8 +165,12 @@ def DoneAt (b : B) (a : Nat) (sc : List Scope) (q : Patt) : Prop :=
     shape q = some i ∧ addrs.length = i.kids.length ∧ hdrAt b.code a (encode (i.rebuild addrs) cidx) ∧
     constOk b.consts i cidx ∧ ∀ pr ∈ addrs.zip i.kids, (pr.1, (⟨sc, pr.2⟩ : Closure)) ∈ b.log
 
+/-- the form compiles to a tag-reading instruction (spec_reference / spec_backmatch) -/
+def TaggedPatt (q : Patt) : Prop := ∃ i, shape q = some i ∧ i.readsTags = true
+
 def Fin (A : List Pend) (b : B) (a : Nat) (sc : List Scope) (q : Patt) : Prop :=
-  (a, sc, q) ∈ A ∨ (DoneAt b a sc q ∧ ∀ pe ∈ A, a + szOf q ≤ pe.1 ∨ pe.1 + szOf pe.2.2 ≤ a)
+  (a, sc, q) ∈ A ∨ (DoneAt b a sc q ∧ (∀ pe ∈ A, a + szOf q ≤ pe.1 ∨ pe.1 + szOf pe.2.2 ≤ a) ∧
+    (TaggedPatt q → b.hasBackref = true))
 
 structure Frame (b b' : B) : Prop where
   len : b.code.length ≤ b'.code.length
@@ -174,12 +178,14 @@ structure Frame (b b' : B) : Prop where
   consts : ∀ (k : Nat) (v : Val), b.consts[k]? = some v → b'.consts[k]? = some v
   log : ∀ x, x ∈ b.log → x ∈ b'.log
   heap : HeapExt b.heap b'.heap
+  flag : b.hasBackref = true → b'.hasBackref = true
 
-theorem Frame.refl (b : B) : Frame b b := ⟨Nat.le_refl _, fun _ _ => rfl, fun _ _ h => h, fun _ h => h, HeapExt.refl _⟩
+theorem Frame.refl (b : B) : Frame b b := ⟨Nat.le_refl _, fun _ _ => rfl, fun _ _ h => h, fun _ h => h, HeapExt.refl _, fun h => h⟩
 
 theorem Frame.trans {a b c : B} (h1 : Frame a b) (h2 : Frame b c) : Frame a c :=
   ⟨Nat.le_trans h1.len h2.len, fun k hk => (h2.code k (Nat.lt_of_lt_of_le hk h1.len)).trans (h1.code k hk),
-   fun k v h => h2.consts k v (h1.consts k v h), fun x h => h2.log x (h1.log x h), h1.heap.trans h2.heap⟩
+   fun k v h => h2.consts k v (h1.consts k v h), fun x h => h2.log x (h1.log x h), h1.heap.trans h2.heap,
+   fun h => h2.flag (h1.flag h)⟩
 
 structure Inv (dflt : Scope) (A : List Pend) (b : B) : Prop where
   prims : ∀ e ∈ b.prims, Fin A b e.2 [] e.1
@@ -215,10 +221,10 @@ theorem DoneAt.mono {b b' : B} {a : Nat} {sc : List Scope} {q : Patt} (h : DoneA
 
 theorem Fin.mono {A : List Pend} {b b' : B} {a : Nat} {sc : List Scope} {q : Patt} (h : Fin A b a sc q) (f : Frame b b') :
     Fin A b' a sc q := by
-  rcases h with h | ⟨h, hd⟩
+  rcases h with h | ⟨h, hd, hfl⟩
   · exact Or.inl h
   · have := h.size
-    exact Or.inr ⟨h.mono f.len (fun k _ hk => f.code k (by omega)) f.consts f.log, hd⟩
+    exact Or.inr ⟨h.mono f.len (fun k _ hk => f.code k (by omega)) f.consts f.log, hd, fun ht => f.flag (hfl ht)⟩
 
 theorem Inv.mono_tables {dflt : Scope} {A : List Pend} {b b' : B} (hi : Inv dflt A b) (f : Frame b b')
     (hp : b'.prims = b.prims) (hr : b'.root = b.root) (hh : b'.heap = b.heap) (hl : b'.log = b.log) : Inv dflt A b' := by
@@ -259,7 +265,7 @@ theorem Inv.addLog {dflt : Scope} {A : List Pend} {b : B} (hi : Inv dflt A b) (a
     (hn : ∃ sc q h, h ≤ maxHops ∧ (∀ n, fetchN dflt (n + h) c = fetchN dflt n ⟨sc, q⟩) ∧ Fin A b a (keySc q sc) q) :
     Inv dflt A (b.addLog a c) ∧ Frame b (b.addLog a c) := by
   have f : Frame b (b.addLog a c) :=
-    ⟨Nat.le_refl _, fun _ _ => rfl, fun _ _ h => h, fun x hx => List.mem_cons_of_mem _ hx, HeapExt.refl _⟩
+    ⟨Nat.le_refl _, fun _ _ => rfl, fun _ _ h => h, fun x hx => List.mem_cons_of_mem _ hx, HeapExt.refl _, fun h => h⟩
   refine ⟨⟨fun e he => (hi.prims e he).mono f, fun e he => (hi.root e he).mono f,
     fun t ht e he => (hi.heap t ht e he).mono f, ?_, hi.pend, hi.wf⟩, f⟩
   intro x hx
@@ -303,10 +309,10 @@ theorem getCache_fin {dflt : Scope} {A : List Pend} {b : B} (hi : Inv dflt A b) 
 omit hbeq in
 theorem Fin.push {A : List Pend} {b b1 : B} {a : Nat} {sc : List Scope} {q : Patt} (self : Pend)
     (h : Fin A b a sc q) (f : Frame b b1) (hs : b.code.length ≤ self.1) : Fin (self :: A) b1 a sc q := by
-  rcases h with h | ⟨h, hd⟩
+  rcases h with h | ⟨h, hd, hfl⟩
   · exact Or.inl (List.mem_cons_of_mem _ h)
   · have hsz := h.size
-    refine Or.inr ⟨h.mono f.len (fun k _ hk => f.code k (by omega)) f.consts f.log, fun pe hpe => ?_⟩
+    refine Or.inr ⟨h.mono f.len (fun k _ hk => f.code k (by omega)) f.consts f.log, fun pe hpe => ?_, fun ht => f.flag (hfl ht)⟩
     rcases List.mem_cons.mp hpe with rfl | hpe
     · exact Or.inl (by omega)
     · exact hd pe hpe
@@ -333,8 +339,10 @@ theorem Inv.push {dflt : Scope} {A : List Pend} {b : B} (hi : Inv dflt A b) (g1 
     · split
       · exact ⟨HeapExt.refl _, hi.wf⟩
       · exact hi.wf.ext_put _ _ (fun t => ⟨rfl, rfl, rfl, rfl⟩)
+  have hflag : b1.hasBackref = b.hasBackref := by
+    simp only [b1, reserve, putCache]; split <;> (try split) <;> rfl
   have f : Frame b b1 := by
-    refine ⟨by simp [hcode], fun k hk => ?_, by simp [hconsts], by simp [hlog], hheap.1⟩
+    refine ⟨by simp [hcode], fun k hk => ?_, by simp [hconsts], by simp [hlog], hheap.1, by simp [hflag]⟩
     rw [hcode, List.getD_eq_getElem?_getD, List.getD_eq_getElem?_getD, List.getElem?_append_left hk]
   have hself : self.1 = b.code.length := rfl
   have push : ∀ {a sc q'}, Fin A b a sc q' → Fin (self :: A) b1 a sc q' := fun h => h.push self f (Nat.le_of_eq hself.symm)
@@ -422,12 +430,12 @@ theorem emitConst_props {ρ : Type} (i : Instr ρ) (b2 : B) :
     (emitConst i b2).2.code = b2.code ∧ (emitConst i b2).2.log = b2.log ∧ (emitConst i b2).2.heap = b2.heap ∧
     (emitConst i b2).2.prims = b2.prims ∧ (emitConst i b2).2.root = b2.root ∧
     (∀ (k : Nat) (v : Val), b2.consts[k]? = some v → (emitConst i b2).2.consts[k]? = some v) ∧
-    constOk (emitConst i b2).2.consts i (emitConst i b2).1 := by
+    constOk (emitConst i b2).2.consts i (emitConst i b2).1 ∧ (emitConst i b2).2.hasBackref = b2.hasBackref := by
   unfold emitConst constOk
   cases hco : i.constOf with
   | none => simp
   | some v =>
-    refine ⟨rfl, rfl, rfl, rfl, rfl, fun k v' h => ?_, by simp⟩
+    refine ⟨rfl, rfl, rfl, rfl, rfl, fun k v' h => ?_, by simp, rfl⟩
     have hk : k < b2.consts.length := (List.getElem?_eq_some_iff.mp h).1
     simp only []
     rw [List.getElem?_append_left hk]; exact h
@@ -440,20 +448,22 @@ theorem Inv.pop {dflt : Scope} {A : List Pend} {b2 b4 : B} (self : Pend) (hi : I
     (hconsts : ∀ (k : Nat) (v : Val), b2.consts[k]? = some v → b4.consts[k]? = some v)
     (hlog : b4.log = b2.log) (hheap : b4.heap = b2.heap) (hprims : b4.prims = b2.prims) (hroot : b4.root = b2.root)
     (hdone : DoneAt b4 self.1 self.2.1 self.2.2)
-    (hA : ∀ pe ∈ A, pe.1 + szOf pe.2.2 ≤ self.1) : Inv dflt A b4 := by
+    (hA : ∀ pe ∈ A, pe.1 + szOf pe.2.2 ≤ self.1)
+    (hflag : b2.hasBackref = true → b4.hasBackref = true) (hself : TaggedPatt self.2.2 → b4.hasBackref = true) :
+    Inv dflt A b4 := by
   have pop : ∀ {a sc q}, Fin (self :: A) b2 a sc q → Fin A b4 a sc q := by
     intro a sc q h
-    rcases h with h | ⟨hd, hdisj⟩
+    rcases h with h | ⟨hd, hdisj, hfl⟩
     · rcases List.mem_cons.mp h with h | h
       · have e1 : a = self.1 := by rw [← h]
         have e2 : sc = self.2.1 := by rw [← h]
         have e3 : q = self.2.2 := by rw [← h]
         subst e1 e2 e3
-        exact Or.inr ⟨hdone, fun pe hpe => Or.inr (hA pe hpe)⟩
+        exact Or.inr ⟨hdone, fun pe hpe => Or.inr (hA pe hpe), hself⟩
       · exact Or.inl h
     · have hs := hdisj self List.mem_cons_self
       refine Or.inr ⟨hd.mono (by omega) (fun k h1 h2 => hcode k (by omega)) hconsts (by rw [hlog]; exact fun _ h => h),
-        fun pe hpe => hdisj pe (List.mem_cons_of_mem _ hpe)⟩
+        fun pe hpe => hdisj pe (List.mem_cons_of_mem _ hpe), fun ht => hflag (hfl ht)⟩
   refine ⟨?_, ?_, ?_, ?_, ?_, by rw [hheap]; exact hi.wf⟩
   · rw [hprims]; exact fun e he => pop (hi.prims e he)
   · rw [hroot]; exact fun e he => pop (hi.root e he)
@@ -576,7 +586,7 @@ theorem compile1_step (dflt : Scope) (d : Nat) (ih : ∀ d', d = d' + 1 → Spec
                       subst hid2
                       rw [ht] at ht0; cases ht0
                       refine ⟨by rw [hext.scOf _ hg1], by rw [hext.levelOf _ hg1], by simp only [t]; omega, fun p hp => hg1 p hp⟩
-                  have f01 : Frame b b1 := ⟨Nat.le_refl _, fun _ _ => rfl, fun _ _ h => h, fun _ h => h, hext⟩
+                  have f01 : Frame b b1 := ⟨Nat.le_refl _, fun _ _ => rfl, fun _ _ h => h, fun _ h => h, hext, fun h => h⟩
                   have hinv1 : Inv dflt A b1 := by
                     refine ⟨fun e he => (hinv.prims e he).mono f01, fun e he => (hinv.root e he).mono f01, ?_, ?_, hinv.pend, hwf1⟩
                     · intro t0 ht0 e he
@@ -619,7 +629,7 @@ theorem compile1_step (dflt : Scope) (d : Nat) (ih : ∀ d', d = d' + 1 → Spec
               dsimp only at hp
               obtain ⟨ip, f01, hlen1, hsc1, hg1'⟩ := hp
               obtain ⟨i2, f12, hlen2, hmem⟩ := kids_ok ihd i.kids _ g1 addrs b2 hkids _ ip hg1'
-              obtain ⟨c1, c2, c3, c4, c5, c6, c7⟩ := emitConst_props i b2
+              obtain ⟨c1, c2, c3, c4, c5, c6, c7, c8⟩ := emitConst_props i b2
               have hwl : (encode (i.rebuild addrs) (emitConst i b2).1).length = encSize i := encode_length i addrs _ hlen2
               have hsz : szOf q = encSize i := szOf_eq hsh
               have hb2len : b.code.length + encSize i ≤ b2.code.length := by have := f12.len; omega
@@ -640,18 +650,24 @@ theorem compile1_step (dflt : Scope) (d : Nat) (ih : ∀ d', d = d' + 1 → Spec
                   · have := hmem pr hpr
                     rw [hsc1] at this
                     simpa [keySc, hpq] using this
+              have hselfflag : TaggedPatt q → b4.hasBackref = true := by
+                rintro ⟨i', hs', ht'⟩
+                rw [hsh] at hs'; cases hs'
+                simp only [b4, ht', Bool.or_true]
               have i4 : Inv dflt A b4 := Inv.pop (b4 := b4) (b.code.length, keySc q (scOf b.heap g1), q) i2 (by simp [b4, patch_length, c1])
                 (fun k hk => by
                   simp only [b4, c1]
                   exact patch_getD_out _ _ _ _ (by rw [hwl, ← hsz]; exact hk))
                 c6 c2 c3 c4 c5 hdone (fun pe hpe => hinv.pend pe hpe)
+                (fun h => by simp only [b4, c8, h, Bool.true_or]) hselfflag
               have hfin : Fin A b4
                   b.code.length (keySc q (scOf b.heap g1)) q :=
-                Or.inr ⟨hdone, fun pe hpe => Or.inr (hinv.pend pe hpe)⟩
+                Or.inr ⟨hdone, fun pe hpe => Or.inr (hinv.pend pe hpe), hselfflag⟩
               obtain ⟨i5, f45⟩ := i4.addLog b.code.length ⟨scOf b.heap g, p⟩ ⟨_, q, _, hkh, hfetch, hfin⟩
               have f04 : Frame b b4 := by
                 refine ⟨by simp only [b4, patch_length, c1]; omega, fun k hk => ?_, fun k v h => c6 k v (f12.consts k v (f01.consts k v h)),
-                  fun x hx => by simp only [b4, c2]; exact f12.log x (f01.log x hx), by simp only [b4, c3]; exact f01.heap.trans f12.heap⟩
+                  fun x hx => by simp only [b4, c2]; exact f12.log x (f01.log x hx), by simp only [b4, c3]; exact f01.heap.trans f12.heap,
+                  fun h => by simp only [b4, c8, f12.flag (f01.flag h), Bool.true_or]⟩
                 simp only [b4, c1]
                 rw [patch_getD_out _ _ _ _ (by omega), f12.code k (by omega), f01.code k hk]
               exact ⟨i5, f04.trans f45, List.mem_cons_self, _, q, hkh, hfetch, hfin.mono f45⟩
@@ -676,7 +692,8 @@ theorem compile_bisim (dflt : Scope) (p : Patt) (o : Output) (h : compile dflt p
     (o.entry, (⟨[], p⟩ : Closure)) ∈ o.log ∧
     ∀ a c, (a, c) ∈ o.log → ∃ (i : Instr Patt) (as : List Nat) (bs : List Closure),
       decode o.program a = some (i.rebuild as) ∧ Spec.fetch dflt c = some (i.rebuild bs) ∧
-      as.length = i.kids.length ∧ bs.length = i.kids.length ∧ ∀ pr ∈ as.zip bs, (pr.1, pr.2) ∈ o.log := by
+      as.length = i.kids.length ∧ bs.length = i.kids.length ∧ (∀ pr ∈ as.zip bs, (pr.1, pr.2) ∈ o.log) ∧
+      (o.hasBackref = false → i.readsTags = false) := by
   unfold compile at h
   cases hc : compile1 dflt Compile.guard B.empty none p with
   | none => simp [hc] at h
@@ -688,10 +705,18 @@ theorem compile_bisim (dflt : Scope) (p : Patt) (o : Output) (h : compile dflt p
       (fun id hid => by cases hid)
     refine ⟨by simpa [scOf, B.empty] using hmem, fun a c hac => ?_⟩
     obtain ⟨sc, q, hh, hh1, hh2, hfin⟩ := hinv.log (a, c) hac
-    rcases hfin with hfin | ⟨hdone, _⟩
+    rcases hfin with hfin | ⟨hdone, _, hflag⟩
     · simp at hfin
     · obtain ⟨i, addrs, cidx, hsh, hlen, hhdr, hco, hk⟩ := hdone
-      refine ⟨i, addrs, i.kids.map (fun k => (⟨sc, k⟩ : Closure)), ?_, ?_, hlen, by simp, ?_⟩
+      refine ⟨i, addrs, i.kids.map (fun k => (⟨sc, k⟩ : Closure)), ?_, ?_, hlen, by simp, ?_, ?_⟩
+      rotate_right
+      · intro hf
+        cases hrt : i.readsTags with
+        | false => rfl
+        | true =>
+          have := hflag ⟨i, hsh, hrt⟩
+          have hf' : b'.hasBackref = false := hf
+          rw [hf'] at this; cases this
       · apply decode_encode _ _ _ _ cidx (shape_encOk q i addrs hsh) hhdr
         unfold constOk at hco ⊢
         rw [constOf_rebuild]; exact hco
@@ -712,12 +737,23 @@ theorem compile_bisim (dflt : Scope) (p : Patt) (o : Output) (h : compile dflt p
 end main
 
 /-- `compile_bisim` with the soundness of the cache-key comparison discharged -/
+theorem compile_sim_flag (dflt : Scope) (p : Patt) (o : Output) (h : compile dflt p = some o) :
+    (o.entry, (⟨[], p⟩ : Closure)) ∈ o.log ∧
+    ∀ a c, (a, c) ∈ o.log → ∃ (i : Instr Patt) (as : List Nat) (bs : List Closure),
+      decode o.program a = some (i.rebuild as) ∧ Spec.fetch dflt c = some (i.rebuild bs) ∧
+      as.length = i.kids.length ∧ bs.length = i.kids.length ∧ (∀ pr ∈ as.zip bs, (pr.1, pr.2) ∈ o.log) ∧
+      (o.hasBackref = false → i.readsTags = false) :=
+  compile_bisim Patt.beq_sound dflt p o h
+
 theorem compile_sim (dflt : Scope) (p : Patt) (o : Output) (h : compile dflt p = some o) :
     (o.entry, (⟨[], p⟩ : Closure)) ∈ o.log ∧
     ∀ a c, (a, c) ∈ o.log → ∃ (i : Instr Patt) (as : List Nat) (bs : List Closure),
       decode o.program a = some (i.rebuild as) ∧ Spec.fetch dflt c = some (i.rebuild bs) ∧
-      as.length = i.kids.length ∧ bs.length = i.kids.length ∧ ∀ pr ∈ as.zip bs, (pr.1, pr.2) ∈ o.log :=
-  compile_bisim Patt.beq_sound dflt p o h
+      as.length = i.kids.length ∧ bs.length = i.kids.length ∧ ∀ pr ∈ as.zip bs, (pr.1, pr.2) ∈ o.log := by
+  obtain ⟨h0, hs⟩ := compile_sim_flag dflt p o h
+  refine ⟨h0, fun a c hac => ?_⟩
+  obtain ⟨i, as, bs, h1, h2, h3, h4, h5, _⟩ := hs a c hac
+  exact ⟨i, as, bs, h1, h2, h3, h4, h5⟩
 
 /-- **denotation of the emitted program = denotation of the source**, every rule the compiler returned, every fuel -/
 theorem compile_den_eq (E : Env) (dflt : Scope) (p : Patt) (o : Output) (h : compile dflt p = some o) (fuel : Nat) :
